@@ -117,7 +117,7 @@ def parseBlock (ws : List String) : Option Block := do
          timestamp := ← kvInt ws "ts", pubkey := ← kvHex ws "pk", preHash := ← kvHex ws "ph", merkleRoot := ← kvHex ws "mr",
          failedTxs := ← (kv ws "ft").bind parseFailed, curTerm := ← kvInt ws "ct", curBlockNum := ← kvInt ws "cb",
          targetBits := ← kvInt ws "tb", justify := ← (kv ws "j").bind parseJustify,
-         blockid := [], sign := [], height := 0, txids := [] }
+         blockid := [], sign := [], height := 0, txids := [], carried := [] }
 
 /-! ### vb -/
 
@@ -222,6 +222,16 @@ def mutate1 (p : Base) (b : Block) (a : List String) : Option Block :=
       | "txnil", some i => (b.txids[i]?).map fun _ => { b with txids := setAt b.txids i [] }
       | "txtrunc", some i => (b.txids[i]?).map fun t => { b with txids := setAt b.txids i t.dropLast }
       | "txcontent", some i => (b.txids[i]?).map fun _ => b
+      | "leafflip", some i =>
+        if i < b.txids.length && b.txids.length ≤ b.carried.length then
+          (b.carried[i]?).map fun v => { b with carried := b.carried.set i (v.map flipLast) }
+        else none
+      | "fixlevels", some k =>
+        -- the k lowest levels of the carried tree recomputed from the (tampered) body, everything above kept
+        let nt := merkleTree sym.H b.txids
+        if b.carried.isEmpty || nt.length != b.carried.length then none else
+        let cnt := (List.range k).foldl (fun a j => a + leafSize b.txids.length / 2 ^ j) 0
+        if cnt ≥ nt.length then none else some { b with carried := nt.take cnt ++ b.carried.drop cnt }
       | "txshift", some i =>
         match b.txids[i]?, b.txids[i+1]? with
         | some x, some y => some { b with txids := setAt (setAt b.txids i (x ++ y.take 16)) (i + 1) (y.drop 16) }
@@ -233,6 +243,22 @@ def mutate1 (p : Base) (b : Block) (a : List String) : Option Block :=
       match b.txids[i]?, b.txids[j]? with
       | some x, some y => if i == j then none else some { b with txids := setAt (setAt b.txids i y) j x }
       | _, _ => none
+    | _, _ => none
+  | ["leafswap", si, sj] =>
+    match idx si, idx sj with
+    | some i, some j =>
+      if i < b.txids.length && j < b.txids.length && i != j && b.txids.length ≤ b.carried.length then
+        match b.carried[i]?, b.carried[j]? with
+        | some x, some y => some { b with carried := (b.carried.set i y).set j x }
+        | _, _ => none
+      else none
+    | _, _ => none
+  | ["leafdup", si, sj] =>
+    match idx si, idx sj with
+    | some i, some j =>
+      if i < b.txids.length && j < b.txids.length && i != j && b.txids.length ≤ b.carried.length then
+        (b.carried[j]?).map fun y => { b with carried := b.carried.set i y }
+      else none
     | _, _ => none
   | ["jdrop"] => b.justify.map fun _ => { b with justify := none }
   | ["jadd"] => match b.justify with
@@ -254,7 +280,19 @@ def mutate1 (p : Base) (b : Block) (a : List String) : Option Block :=
       | some x => some { b with failedTxs := (k0, m0.dropLast) :: (k1, x :: m1) :: rest }
       | none => none
     | _ => none
-  | ["mtree"] => if b.txids.isEmpty then none else some b
+  | ["mtree"] =>
+    match b.carried.getLast? with
+    | none => none
+    | some v => some { b with carried := b.carried.dropLast ++ [v.map flipLast] }
+  | ["droptree"] => if b.carried.isEmpty then none else some { b with carried := [] }
+  | ["fixleaves"] =>
+    -- the leaves of the carried tree rewritten to the (tampered) body, inner nodes and root kept
+    if b.carried.isEmpty then none else
+    some { b with carried := (b.txids.take b.carried.length).map some ++ b.carried.drop b.txids.length }
+  | ["fixtree"] =>
+    -- the whole carried tree recomputed from the (tampered) body, the signed root put back on top
+    if b.carried.isEmpty || b.txids.isEmpty then none else
+    some { b with carried := (merkleTree sym.H b.txids).dropLast ++ [some b.merkleRoot] }
   | ["txaddnil"] => some { b with txids := b.txids ++ [[]] }
   | ["pkother"] => some { b with pubkey := sym.pubJson (p.k + 1) }
   | ["signother"] => some { b with sign := sym.signWith (p.k + 1) b.blockid }
